@@ -8,4 +8,4 @@ for s in $seeds; do for id in $ids; do
   out=$(VERIF_SEED=$s ./check $id --tier $tier 2>&1); rc=$?
   echo "seed=$s $id rc=$rc $(echo "$out" | tail -1 | cut -c1-110)"
   [ $rc != 0 ] && echo "$out" | grep -E "clause=|HARNESS" | head -6 | cut -c1-300
-done; done
+done; done; true
